@@ -4,6 +4,8 @@
 import Gmars.Driver.Wire
 import Gmars.Model.Listing
 import Gmars.Spec.LoadText
+import Gmars.Model.LoadU
+import Gmars.Spec.LoadTextU
 
 namespace Gmars.Driver
 open Gmars Gmars.Wire Gmars.GoStr
@@ -68,6 +70,15 @@ def modelLoadResult (r : Except Panic LoadResult) : WResult :=
   | .ok (some w) => { kind := "ok", start := w.start, name := hexOf w.name.toList, author := hexOf w.author.toList,
                       strat := hexOf w.strategy.toList, code := w.code.toList }
 
+/-- result of the byte-level reader model (metadata are byte strings) -/
+def modelLoadResultB (r : Except Panic (Option WarriorDataB)) : WResult :=
+  let hx (bs : List UInt8) : String := hexOf (bs.map (fun b => Char.ofNat b.toNat))
+  match r with
+  | .error _ => { kind := "panic" }
+  | .ok none => { kind := "err" }
+  | .ok (some w) => { kind := "ok", start := w.start, name := hx w.name, author := hx w.author,
+                      strat := hx w.strategy, code := w.code.toList }
+
 /-- C10 structural predicate on an accepted warrior -/
 def c10Shape (cfg : Config) (r : WResult) : Option String :=
   let M := cfg.coreSize.toNat
@@ -112,8 +123,10 @@ def runLoadLine (line : String) : List String × (TextStats → TextStats) :=
           let mut out : List String := []
           let ascii := isAscii bytes
           -- tie
-          if ascii then
-            let mr := modelLoadResult (parseLoadFile cfg (toStr bytes))
+          -- the byte-level model (`parseLoadFileU`, exact for every byte string, `parseLoadFileU_ascii`
+          -- relates it to the ASCII model the older theorems are about)
+          let mr := modelLoadResultB (parseLoadFileU cfg (bytes.map UInt8.ofNat))
+          if true then
             if showWResult mr != showWResult implL then
               out := out ++ [s!"V {id} {tag} CORR op=0 load: model {(showWResult mr).take 300} impl {(showWResult implL).take 300}"]
           -- C10 on the implementation's result
@@ -123,8 +136,8 @@ def runLoadLine (line : String) : List String × (TextStats → TextStats) :=
             match c10Shape cfg implL with
             | some m => out := out ++ [s!"V {id} {tag} PROP op=0 C10 {m}"]
             | none => pure ()
-            if ascii then
-              let (n, _) := Spec.significantInstrLines (toStr bytes)
+            if true then
+              let (n, _) := Spec.significantInstrLinesU (bytes.map UInt8.ofNat)
               if n != implL.code.length then
                 out := out ++ [s!"V {id} {tag} PROP op=0 C10 {n} significant instruction lines before the end marker but {implL.code.length} instructions read (silent skip or extra)"]
           -- C09
@@ -152,7 +165,7 @@ def runLoadLine (line : String) : List String × (TextStats → TextStats) :=
           if out.isEmpty then
             return ([s!"V {id} {tag} OK ops=1 nt={if nt then 1 else 0}"], fun s =>
               { s with cases := s.cases + 1, nontrivial := s.nontrivial + (if nt then 1 else 0),
-                       skipped := s.skipped + (if ascii then 0 else 1),
+                       skipped := s.skipped + 0,
                        accepted := s.accepted + (if implL.kind == "ok" then 1 else 0),
                        rejected := s.rejected + (if implL.kind == "err" then 1 else 0) })
           else return (out, fun s => { s with cases := s.cases + 1 })
